@@ -937,6 +937,18 @@ def _trig(fn, v):
             t = -tm
         else:
             t = ring.sym("tanhalf%d" % len(TRIG_PARAM), positive=False)
+            if q.is_const():
+                # a constant angle that is not in the exact table: the parameter stands for the real number tan(angle / 2)
+                frac = q.const_value()
+                (mk,) = t.t.keys()
+
+                def value(ctx, frac=frac):
+                    import decimal
+
+                    half = ctx.multiply(ring.decimal_pi(ctx), decimal.Decimal(frac.numerator)) / decimal.Decimal(2 * frac.denominator)
+                    s_, c_ = ring.decimal_sincos(half, ctx)
+                    return ctx.divide(s_, c_)
+                ring.NUMERIC[mk[0][0]] = value
         TRIG_PARAM[key] = t
     den = ring.inv(ONE + t * t)
     return (ONE - t * t) * den if fn == "Cos" else 2 * t * den
@@ -1201,9 +1213,21 @@ def argsort(a, axis=-1, **kw):
 
 def np_round(a, decimals=0, out=None):
     def r(v):
-        c = P(v).const_value()
+        pv = P(v)
         q = Fraction(10) ** int(decimals)
-        return Poly.const(Fraction(round(c * q)) / q)
+        if pv.is_const():
+            return Poly.const(Fraction(round(pv.const_value() * q)) / q)
+        if ring.all_syms(pv) - set(ring.NUMERIC):
+            raise Undecided("round of a symbolic value")
+        # an algebraic constant (roots of constants): evaluate to 80 digits; the rounded value is decided unless the number sits within
+        # 1e-30 of a rounding boundary
+        import decimal
+
+        d = ring.const_decimal(pv) * decimal.Decimal(q.numerator) / decimal.Decimal(q.denominator)
+        n = d.to_integral_value(rounding=decimal.ROUND_HALF_EVEN)
+        if abs(abs(d - n) - decimal.Decimal("0.5")) < decimal.Decimal(10) ** -30:
+            raise Undecided("round of an algebraic constant at a rounding boundary")
+        return Poly.const(Fraction(int(n)) / q)
 
     if isinstance(a, np.ndarray):
         if a.dtype != object:
@@ -2075,8 +2099,32 @@ def externals(it):
     ))
     sparse.ns["linalg"] = ExtModule("scipy.sparse.linalg", dict(spsolve=Opaque("spsolve"), eigsh=Opaque("eigsh")))
     special = ExtModule("scipy.special", dict(factorial=_factorial, erf=erf))
+    def _griddata(points, values, xi, method="linear", **kw):
+        """scipy.interpolate.griddata for one-dimensional sites with exact (constant) coordinates: piecewise linear interpolation of the
+        values (any trailing shape) at the sites; the general scattered-data case is not summarised"""
+        pts = to_obj(asarray(points))
+        if pts.ndim != 1 or method != "linear":
+            raise Undecided("scipy.interpolate.griddata: only 1-D sites with linear interpolation are summarised")
+        xs = [P(v).const_value() for v in pts]
+        vals = to_obj(asarray(values))
+        order = sorted(range(len(xs)), key=lambda k: xs[k])
+        xq = to_obj(asarray(xi)).reshape(-1)
+        out = np.empty((len(xq),) + vals.shape[1:], dtype=object)
+        for n_, q in enumerate(xq):
+            qv = P(q).const_value()
+            if qv < xs[order[0]] or qv > xs[order[-1]]:
+                out[n_] = ring.sym("NaN")
+                continue
+            for a, b in zip(order[:-1], order[1:]):
+                if xs[a] <= qv <= xs[b]:
+                    t = Fraction(qv - xs[a], xs[b] - xs[a])
+                    out[n_] = vals[a] * (1 - t) + vals[b] * t
+                    break
+        return out
+
+    interpolate = ExtModule("scipy.interpolate", dict(griddata=_griddata))
     scipy = ExtModule("scipy", dict(sparse=sparse, special=special,
-                                    interpolate=Opaque("scipy.interpolate"), optimize=Opaque("scipy.optimize")))
+                                    interpolate=interpolate, optimize=Opaque("scipy.optimize")))
 
     def _warn(msg=None, *a, **k):
         it.events.append(("warn", str(msg)[:200], it.where()))
@@ -2112,7 +2160,7 @@ def externals(it):
 
     mods = {
         "numpy": npm, "numpy.linalg": linalg, "numpy.polynomial": ns["polynomial"], "numpy.polynomial.legendre": legendre,
-        "scipy": scipy, "scipy.sparse": sparse, "scipy.sparse.linalg": sparse.ns["linalg"], "scipy.special": special,
+        "scipy": scipy, "scipy.sparse": sparse, "scipy.sparse.linalg": sparse.ns["linalg"], "scipy.special": special, "scipy.interpolate": interpolate,
         "einsumt": ExtModule("einsumt", dict(einsumt=einsumt)),
         "warnings": warnings,
         "string": ExtModule("string", dict(ascii_lowercase=_string.ascii_lowercase, ascii_uppercase=_string.ascii_uppercase,
